@@ -26,7 +26,8 @@ static const QStringList NAMES = {
     QStringLiteral("SCRAM-SHA-1"), QStringLiteral("SCRAM-SHA-256"), QStringLiteral("SCRAM-SHA-512"), QStringLiteral("SCRAM-SHA3-512"),
     QStringLiteral("DIGEST-MD5"), QStringLiteral("PLAIN"), QStringLiteral("ANONYMOUS"),
     QStringLiteral("HT-SHA-256-NONE"), QStringLiteral("HT-SHA-256-ENDP"),
-    QStringLiteral("X-FACEBOOK-PLATFORM"), QStringLiteral("SCRAM-SHA-2"), QStringLiteral("plain")
+    QStringLiteral("X-FACEBOOK-PLATFORM"), QStringLiteral("SCRAM-SHA-2"), QStringLiteral("plain"),
+    QStringLiteral("SCRAM-SHA-1-PLUS")   // a known name with a suffix (channel binding is not supported: never to be chosen)
 };
 static const QStringList DISABLE = { QStringLiteral("PLAIN"), QStringLiteral("SCRAM-SHA-1"), QStringLiteral("DIGEST-MD5"), QStringLiteral("ANONYMOUS"), QStringLiteral("HT-SHA-256-NONE") };
 static const QStringList PREFERRED = { QString(), QStringLiteral("SCRAM-SHA-1"), QStringLiteral("SCRAM-SHA-256"), QStringLiteral("SCRAM-SHA-512"), QStringLiteral("SCRAM-SHA3-512"),
